@@ -558,6 +558,33 @@ def run(ctx):
         ctx.count('ops_' + k2, v)
     sweep(ctx, root)
     json_text(ctx, root.parent)
+    own_cache_probe(ctx, root.parent)
+
+
+def own_cache_probe(ctx, root):
+    """the value returned for a key comes from the cache that was ASKED: two live objects of one class, each with a file cache of its own
+    behind `obj.cache`, calling the same cached method — each computes once and finds its entry in its own directory"""
+    import taskchain.cache as tc
+
+    class Holder:
+        def __init__(self, cache, tag):
+            self.cache, self.tag, self.log = cache, tag, []
+
+        @tc.cached()
+        def m(self, x):
+            self.log.append(x)
+            return [self.tag, x]
+    for k in range(ctx.n(3, 12)):
+        caches = [tc.JsonCache(root / f'own{k}-a'), tc.JsonCache(root / f'own{k}-b')] if k % 2 == 0 else [tc.InMemoryCache(), tc.InMemoryCache()]
+        a, b = Holder(caches[0], 'a'), Holder(caches[1], 'b')
+        outs = [a.m(k), b.m(k), a.m(k), b.m(k)]
+        case = {'probe': 'two objects with caches of their own', 'cache': type(caches[0]).__name__}
+        ctx.case(case); ctx.count('own-cache-probe')
+        if outs != [['a', k], ['b', k], ['a', k], ['b', k]] or a.log != [k] or b.log != [k]:
+            ctx.fail('a cached call on one object was answered from (or stored into) the cache of another object', case,
+                     {'returned': outs, 'computed': {'a': a.log, 'b': b.log}})
+        if k % 2 == 0 and not any((root / f'own{k}-b').rglob('*.json')):
+            ctx.fail('the entry of a cached call is not in the cache of the object that was called', case, {'directory': f'own{k}-b'})
 
 
 def search(ctx, divergences):
